@@ -90,7 +90,7 @@ Definition rel_close (a b : Qc) : bool := Qc_leb (Qc_abs (a - b)) (Q2Qc (1 # 100
                     kw_ = {"std": c["also_std"]} if "also_std" in c else {}
                     r = P.noise_gauss(a, snr=snr, snr_in_db=c["mode"].startswith("db"), **kw_)
                     P.noise_gauss(a, snr=snr, snr_in_db=c["mode"].startswith("db"), **kw_)     # same arguments again: same scale expected
-            return {"out": np.asarray(r, dtype=float).tolist(), "calls": calls[:1], "second": calls[1:],
+            return {"out": np.asarray(r, dtype=float).reshape(-1).tolist(), "out_shape": list(np.shape(r)), "calls": calls[:1], "second": calls[1:],
                     "input_changed": not np.array_equal(np.asarray(a, dtype=float), a0) or (snr0 is not None and not np.array_equal(np.asarray(snr, dtype=float), snr0))}
         except Exception as e:
             return {"exc": exn_name(e), "exc_msg": str(e)[:100]}
@@ -123,6 +123,9 @@ Definition rel_close (a b : Qc) : bool := Qc_leb (Qc_abs (a - b)) (Q2Qc (1 # 100
             F.append(Failure(aspect=aspect, what="noise_gauss: %s (a=%s mode=%s snr=%s)" % (what, c["a"][:8], c["mode"], c.get("snr")), signature={"aspect": aspect}))
         if "exc" in o:
             fail("raises", o["exc_msg"])
+            return F
+        if o.get("out_shape") != [len(c["a"])]:
+            fail("shape", "the result has shape %s for a signal of %d samples" % (o.get("out_shape"), len(c["a"])))
             return F
         if len(o["calls"]) != 1:
             fail("generator-calls", "numpy.random.normal was called %d times" % len(o["calls"]))
@@ -215,6 +218,19 @@ Definition rel_close (a b : Qc) : bool := Qc_leb (Qc_abs (a - b)) (Q2Qc (1 # 100
                           "s": rng.choice([0.0, 0.0, None, 1e-4, 0.01, 1.0, 100.0]),
                           # the same request made earlier in the object's life, before a change of the abscissae only
                           "history": rng.choice([None, None, "shift_x", "scale_x", "shift_x+scale_y"])})
+        # values centred on their own mean (the samples add up to a rounding residue, not to zero) and a sine over whole periods:
+        # nothing about a fit depends on what the samples happen to add up to
+        for _ in range(8 if tier == "quick" else 50):
+            n = rng.randint(8, 24)
+            x = gens.sorted_x(rng, n, rng.choice(["uniform", "dyadic", "int"]))
+            if rng.random() < 0.6:
+                v = [math.sin(i / 2.0) * 3 + rng.uniform(-1.0, 1.0) + 0.1 * i for i in range(n)]
+                mu = math.fsum(v) / n
+                y = [a - mu for a in v]
+            else:
+                y = [3 * math.sin(2 * math.pi * i / n * 2) for i in range(n)]
+            cases.append({"x": x, "y": y, "kind": "noisy", "scale": None, "entry": rng.choice(["weaver.smooth", "weaver.to_function", "spline_smooth"]),
+                          "s": rng.choice([0.0, 0.01, 1.0, None]), "history": None})
         # values on a large baseline (2.5e8 + noise of order 1; 4e7 + noise): the default smoothing condition is n times the variance of
         # *these* values — single-pass formulas (sum of squares minus squared sum) cancel catastrophically here
         for _ in range(10 if tier == "quick" else 60):
